@@ -7,6 +7,7 @@ package main
 
 import (
 	"fmt"
+	"go/token"
 
 	"golang.org/x/tools/go/ssa"
 )
@@ -95,5 +96,87 @@ func ruleLoopAlias(keep func(string) bool, floor int) ruleFunc {
 			}
 		}
 		c.R.Floor("L1-loop-alias", n, floor)
+	}
+}
+
+// L3 — container reset in a loop.  Inside a loop, a freshly made map stored into
+// a location that the same loop also inserts into must be created lazily (under
+// a nil test of that location); an unconditional store discards what earlier
+// iterations inserted.
+func ruleContainerReset(keep func(string) bool, floor int) ruleFunc {
+	return func(c *Ctx) {
+		p := c.P
+		c.R.Rule("L3: inside a loop, a newly made map assigned to a location the loop also inserts into is assigned only under a nil test of that location (lazy initialisation)")
+		n := 0
+		for _, fn := range p.Funcs() {
+			key := ShortKey(FuncKey(fn))
+			if keep != nil && !keep(key) {
+				continue
+			}
+			for li, l := range ssaLoops(fn) {
+				for b := range l.blocks {
+					for _, in := range b.Instrs {
+						st, ok := in.(*ssa.Store)
+						if !ok {
+							continue
+						}
+						if _, isMake := st.Val.(*ssa.MakeMap); !isMake {
+							continue
+						}
+						loc := addrKey(st.Addr)
+						// does the loop insert into the map loaded from the same location?
+						inserts := false
+						for b2 := range l.blocks {
+							for _, in2 := range b2.Instrs {
+								if mu, ok := in2.(*ssa.MapUpdate); ok {
+									if ld, ok := mu.Map.(*ssa.UnOp); ok && ld.Op == token.MUL && addrKey(ld.X) == loc {
+										inserts = true
+									}
+								}
+							}
+						}
+						if !inserts {
+							continue
+						}
+						n++
+						cons := fmt.Sprintf("%s#loop%d#reset(%s)", key, li, loc)
+						guarded := false
+						for _, gb := range fn.Blocks {
+							ifi, ok := gb.Instrs[len(gb.Instrs)-1].(*ssa.If)
+							if !ok {
+								continue
+							}
+							bo, ok := ifi.Cond.(*ssa.BinOp)
+							if !ok || (bo.Op != token.EQL && bo.Op != token.NEQ) {
+								continue
+							}
+							var other ssa.Value
+							if cst, ok := bo.Y.(*ssa.Const); ok && cst.IsNil() {
+								other = bo.X
+							} else if cst, ok := bo.X.(*ssa.Const); ok && cst.IsNil() {
+								other = bo.Y
+							}
+							ld, ok := other.(*ssa.UnOp)
+							if !ok || ld.Op != token.MUL || addrKey(ld.X) != loc {
+								continue
+							}
+							idx := 0
+							if bo.Op == token.NEQ {
+								idx = 1
+							}
+							if gb.Succs[idx].Dominates(b) {
+								guarded = true
+							}
+						}
+						if guarded {
+							c.R.OK("L3-container-reset", cons, p.InstrPos(st), "created only when still nil")
+						} else {
+							c.R.Bad("L3-container-reset", cons, p.InstrPos(st), "a new map is assigned to "+loc+" in every iteration although the loop also inserts into it: entries added by earlier iterations are lost")
+						}
+					}
+				}
+			}
+		}
+		c.R.Floor("L3-container-reset", n, floor)
 	}
 }
